@@ -209,8 +209,12 @@ pub fn closure(
         let o = guarded(|| run_real(cfg, &sched, &[], false, true))?;
         let d = o.dump.as_ref().unwrap();
         let input: String = render(&lex, h);
-        let rk = ref_ctl_key(cfg, &input);
-        Ok((digest(&(abstract_key(d, &o.queue_left), rk)), control_key(d)))
+        let (rk, rlst) = ref_state(cfg, &input);
+        // agreement bits: where both sides keep the same piece of state, the key records whether they
+        // agree instead of the value (all true while the implementation is right, so the graph does not
+        // grow; any disagreement makes a new state that is expanded rather than merged away)
+        let agree = (d.last_start_tag == rlst, d.ignore_lf == input.ends_with('\r'));
+        Ok((digest(&(abstract_key(d, &o.queue_left), rk, agree)), control_key(d)))
     };
     let (rootk, rootc) = key_of(&[]).unwrap();
     controls.lock().unwrap().entry(rootc).or_insert(vec![]);
